@@ -116,6 +116,10 @@ class CompoundFeatures:
         return (result['size'] == len(result['result'])
                 and result['ratio'] == Metrics.get_ratio(result['result'], feats(self.model)))
 
+    def post_definition(self, result):
+        # "features that have subfeatures": exactly the features owning a relation, in model order
+        return seq_eq(result['result'], [f.name for f in feats(self.model) if len(f.relations) > 0])
+
 
 @contract(MET, 'FMMetrics.top_features', prop='C17')
 class TopFeatures:
@@ -124,6 +128,10 @@ class TopFeatures:
 
     def post_size_ratio(self, result):
         return result['size'] == len(result['result'])
+
+    def post_definition(self, result):
+        # "first descendants of the root": the children of the root, relation by relation
+        return seq_eq(result['result'], [f.name for r in self.model.root.relations for f in r.children])
 
 
 @contract(MET, 'FMMetrics.root_feature', prop='C17')
@@ -143,6 +151,10 @@ class MutexGroups:
     def post_size(self, result):
         return result['size'] == len(result['result'])
 
+    def post_definition(self, result):
+        # features owning a [0..1] group of several children
+        return seq_eq(result['result'], [f.name for f in feats(self.model) if any(rclass(r) == MUTEX for r in f.relations)])
+
 
 @contract(MET, 'FMMetrics.cardinality_groups', prop='C17')
 class CardinalityGroups:
@@ -152,6 +164,11 @@ class CardinalityGroups:
     def post_size(self, result):
         return result['size'] == len(result['result'])
 
+    def post_definition(self, result):
+        # features owning a group of several children with a cardinality that is none of alternative / or / mutex
+        return seq_eq(result['result'], [f.name for f in feats(self.model)
+                                         if any(len(r.children) > 1 and rclass(r) == CARD for r in f.relations)])
+
 
 @contract(MET, 'FMMetrics.feature_groups', prop='C17')
 class FeatureGroups:
@@ -160,6 +177,10 @@ class FeatureGroups:
 
     def post_size(self, result):
         return result['size'] == len(result['result'])
+
+    def post_definition(self, result):
+        # features owning at least one relation with several children
+        return seq_eq(result['result'], [f.name for f in feats(self.model) if any(len(r.children) > 1 for r in f.relations)])
 
 
 @contract(MET, 'FMMetrics.get_feature_ancestors', prop='C17')
@@ -186,3 +207,62 @@ class GetRatio:
 
     def post_value(collection1, collection2, precision, result):
         return result == (0.0 if len(collection2) == 0 else float(round(len(collection1) / len(collection2), precision)))
+
+
+# ------------------------------------------------------------------ more list-valued metrics against their definitions
+@contract(MET, 'FMMetrics.solitary_features', prop='C17')
+class SolitaryFeatures:
+    # the definitional clause needs "the relation of the parent that contains f is f's owner relation" under a fold; z3 answers
+    # with an internal sort error on the quantified step: evaluated natively only
+    native_only = ('post_definition',)
+
+    def pre(self):
+        return wf() and cache_ok(self)
+
+    def post_size(self, result):
+        return result['size'] == len(result['result'])
+
+    def post_definition(self, result):
+        # non-root features that are the only member of their relation
+        return seq_eq(result['result'], [f.name for f in feats(self.model)
+                                         if f.parent is not None and len(owner_rel(f).children) == 1])
+
+
+@contract(MET, 'FMMetrics.grouped_features', prop='C17')
+class GroupedFeatures:
+    native_only = ('post_definition',)
+
+    def pre(self):
+        return wf() and cache_ok(self)
+
+    def post_size(self, result):
+        return result['size'] == len(result['result'])
+
+    def post_definition(self, result):
+        # non-root features that share their relation with other members
+        return seq_eq(result['result'], [f.name for f in feats(self.model)
+                                         if f.parent is not None and len(owner_rel(f).children) > 1])
+
+
+@contract(MET, 'FMMetrics.alternative_groups', prop='C17')
+class AlternativeGroups:
+    def pre(self):
+        return wf() and cache_ok(self)
+
+    def post_size(self, result):
+        return result['size'] == len(result['result'])
+
+    def post_definition(self, result):
+        return seq_eq(result['result'], [g.name for g in [f for f in feats(self.model) if any(rclass(r) == ALT for r in f.relations)]])
+
+
+@contract(MET, 'FMMetrics.or_groups', prop='C17')
+class OrGroups:
+    def pre(self):
+        return wf() and cache_ok(self)
+
+    def post_size(self, result):
+        return result['size'] == len(result['result'])
+
+    def post_definition(self, result):
+        return seq_eq(result['result'], [g.name for g in [f for f in feats(self.model) if any(rclass(r) == OR_ for r in f.relations)]])
